@@ -54,7 +54,7 @@ impl WalRecovery {
             .filter(|p| p.extension().map(|ext| ext == "log").unwrap_or(false))
             .collect();
 
-        files.sort();
+        super::sort_by_log_id(&mut files);
         Ok(files)
     }
 
